@@ -494,7 +494,10 @@ def sym_expr(e):
             return sym_expr(e[2][0])
         if last == "len" and e[2]:
             inner = e[2][0]
-            if any(x[0] == "field" and x[2] == "seed" for x in expr.walk(inner)) or core.strip_generics(e[1]) in SEED_LEN_FNS:
+            raw = any(x[0] == "field" and x[2] == "data" for x in expr.walk(inner))
+            # `seed.len()` / `seed.as_slice().len()` is n; the length of the raw container behind it (`seed.data`) is the
+            # container capacity, not n (c09-m7)
+            if (any(x[0] == "field" and x[2] == "seed" for x in expr.walk(inner)) and not raw) or core.strip_generics(e[1]) in SEED_LEN_FNS:
                 return "n"
             return "len(%s)" % short_src(inner)
         if last in ("iter_len", "prng_len") and e[2]:
